@@ -25,7 +25,7 @@ REQUIRED_COUNTERS = ('shadow_comparisons', 'commits', 'aborts', 'failed_commits_
                      'close_while_joined_refused', 'relinked_disowned_objects')
 
 OPS = ['modify'] * 5 + ['link'] * 6 + ['unlink'] * 2 + ['add'] * 2 + ['commit'] * 4 + ['abort'] * 2 + ['conflict', 'foreign', 'foreign', 'io-fault',
-                                                                                                  'close-joined', 'reopen', 'long-meta', 'savepoint', 'savepoint', 'rollback']
+                                                                                                  'close-joined', 'reopen', 'long-meta', 'savepoint', 'savepoint', 'rollback', 'refused-write', 'serialize-failure']
 
 
 def shards(tier, seed):
@@ -140,6 +140,11 @@ def run_case(sh, s, d, case):
                 sw.op_close_while_joined()
             elif k == 'reopen':
                 sw.op_reopen()
+            elif k == 'refused-write':
+                sw.op_refused_write()
+            elif k == 'serialize-failure':
+                sw.op_serialize_failure()
+                failed = True
         sw.op_commit()
     except Diverged as e:
         sh.violation('c11:%s:%s' % (kind, e.mechanism), dict(e.detail, trace=trace[-25:]), case)
